@@ -142,56 +142,62 @@ def check_collect(ctx, model, crate, p, ledger, vault=False, rule="C07-F3"):
     saved = bool(oks) and any(must_pass_through(v, sb, oks) for sb, _ in saves)
     ctx.ob(rule, "%s|ledger-saved-on-every-success-path" % p, saved, "%s write lies on every path to a successful return: %s" % (ledger.split("::")[-1], saved), v.where(saves[0][0]))
     # transfers
-    xfers = v.calls_to(r"Asset::into_msg$")
+    # the transfers are built in the handler or in a closure of an iterator pipeline over the ledger: either way they are
+    # read in their own body (sv) and their operands are translated back into the handler (scope_origins)
+    from .common import scope_calls, scope_origins, scope_attached
+    from ..guards import resolve as _resolve
+    xfers = scope_calls(model, p, r"Asset::into_msg$")
     if not xfers:
         ctx.ob(rule, "%s|transfer" % p, False, "no transfer of the pending fees is built", v.where())
         return
-    for xb, xt in xfers:
-        rec = arg_origins(v, xb, xt, 1)
+    for sv, chain, xb, xt in xfers:
+        rec = scope_origins(model, chain, sv, xt["args"][1], sv.at_term(xb))
         ok_rec = bool(rec) and all(o.kind == "load" and o.a.endswith("::state::CONFIG") and tuple(o.proj) == ("fee_collector_addr",) for o in rec)
-        ctx.ob(rule, "%s|recipient" % p, ok_rec, "transfer recipient: %s (must be CONFIG.fee_collector_addr)" % sorted(map(repr, rec)), v.where(xb))
-        src = arg_origins(v, xb, xt, 0)
+        ctx.ob(rule, "%s|recipient" % p, ok_rec, "transfer recipient: %s (must be CONFIG.fee_collector_addr)" % sorted(map(repr, rec)), sv.where(xb))
+        src = scope_origins(model, chain, sv, xt["args"][0], sv.at_term(xb))
         ok_src = bool(src) and all(o.kind == "load" and o.a.endswith(ledger) for o in src)
         if not ok_src and src and all(o.kind == "agg" for o in src):
             # `Asset { info: entry.info.clone(), amount: entry.amount }` is the entry too: decided field by field
-            parts = {f: arg_origins(v, xb, xt, 0, proj=(f,)) for f in ("info", "amount")}
+            parts = {f: scope_origins(model, chain, sv, xt["args"][0], sv.at_term(xb), proj=(f,)) for f in ("info", "amount")}
             ok_src = all(os_ and all(o.kind == "load" and o.a.endswith(ledger) and tuple(o.proj[-1:]) == (f,) for o in os_)
                          for f, os_ in parts.items())
             src = set().union(*parts.values())
-        ctx.ob(rule, "%s|transfers-the-ledger-entry" % p, ok_src, "transferred asset: %s (must be the loaded %s entry)" % (sorted(map(repr, src)), ledger.split("::")[-1]), v.where(xb))
-        tainted, sinks, ret = forward_flow(v, [xt["dest"]["l"]])
-        ctx.ob(rule, "%s|transfer-attached" % p, bool(sinks), "transfer message reaches Response::add_messages: %s" % bool(sinks), v.where(xb))
+        ctx.ob(rule, "%s|transfers-the-ledger-entry" % p, ok_src, "transferred asset: %s (must be the loaded %s entry)" % (sorted(map(repr, src)), ledger.split("::")[-1]), sv.where(xb))
+        attached = scope_attached(model, chain, sv, xt["dest"]["l"])
+        ctx.ob(rule, "%s|transfer-attached" % p, attached, "transfer message reaches Response::add_messages: %s" % attached, sv.where(xb))
         # reset <=> transfer: region walk on the entry amount
-        def is_x(os_):
+        def is_x(os_, sv=sv, chain=chain):
+            os_ = _resolve(model, chain, sv, os_, elems=True)
             return bool(os_) and all(o.kind == "load" and o.a.endswith(ledger) and o.proj and o.proj[-1] == "amount" for o in os_)
-        tracked, ths = single_var_guard(v, is_x, [Fraction(0)])
-        unresolved = getattr(v, "_unresolved_cmp", [])
+        tracked, ths = single_var_guard(sv, is_x, [Fraction(0)])
+        unresolved = getattr(sv, "_unresolved_cmp", [])
         if unresolved:
             ctx.ob(rule, "%s|reset-iff-transfer" % p, False, "comparison of the pending amount with an unevaluated constant %s" % unresolved,
-                   v.where(unresolved[0][0]), kind="unrecognised")
+                   sv.where(unresolved[0][0]), kind="unrecognised")
             continue
         # zeroing sites: `Asset { amount: 0, .. }` values that flow into the ledger save
         zsites = []
         save_blocks = {sb for sb, _ in saves}
-        for b, i, s in v.iter_stmts():
-            rv = s["rv"]
-            if rv["r"] == "agg" and rv.get("adt", "").endswith("asset::Asset") and "amount" in rv.get("fields", []):
-                ao = rv["ops"][rv["fields"].index("amount")]
-                if const_of(v, ao, (b, i)) == 0:
-                    tainted, _, _ = forward_flow(v, [s["lhs"]["l"]])
-                    feeds = False
-                    for sb, st in saves:
-                        for a in st["args"]:
-                            if a["k"] in ("copy", "move") and a["pl"]["l"] in tainted:
-                                feeds = True
-                    if feeds:
-                        zsites.append(b)
+        if sv is v:
+            for b, i, s in v.iter_stmts():
+                rv = s["rv"]
+                if rv["r"] == "agg" and rv.get("adt", "").endswith("asset::Asset") and "amount" in rv.get("fields", []):
+                    ao = rv["ops"][rv["fields"].index("amount")]
+                    if const_of(v, ao, (b, i)) == 0:
+                        tainted, _, _ = forward_flow(v, [s["lhs"]["l"]])
+                        feeds = False
+                        for sb, st in saves:
+                            for a in st["args"]:
+                                if a["k"] in ("copy", "move") and a["pl"]["l"] in tainted:
+                                    feeds = True
+                        if feeds:
+                            zsites.append(b)
         # ... or `entry.amount = 0` written into (a reference to an element of) the loaded ledger that is saved back
-        for b, i, s in v.iter_stmts():
-            F = v._named_fields(s["lhs"]["p"])
+        for b, i, s in sv.iter_stmts():
+            F = sv._named_fields(s["lhs"]["p"])
             if F and F[-1] == "amount" and s["rv"]["r"] in ("use",):
-                if const_of(v, s["rv"]["op"], (b, i)) == 0:
-                    base = v.origins_of_place({"l": s["lhs"]["l"], "p": []}, at=(b, i))
+                if const_of(sv, s["rv"]["op"], (b, i)) == 0:
+                    base = _resolve(model, chain, sv, sv.origins_of_place({"l": s["lhs"]["l"], "p": []}, at=(b, i)), elems=True)
                     if any(o.kind == "load" and o.a.endswith(ledger) for o in base):
                         zsites.append(b)
         if not zsites:
@@ -204,7 +210,7 @@ def check_collect(ctx, model, crate, p, ledger, vault=False, rule="C07-F3"):
         for x in single_var_regions(ths):
             if x < 0:
                 continue
-            reach = single_var_walk(v, tracked, x)
+            reach = single_var_walk(sv, tracked, x)
             sent = xb in reach
             zeroed = any(z in reach for z in zsites)
             rows.append("%s:%s/%s" % (x, "transfer" if sent else "skip", "zeroed" if zeroed else "kept"))
@@ -214,7 +220,7 @@ def check_collect(ctx, model, crate, p, ledger, vault=False, rule="C07-F3"):
                 bad.append("amount=%s is transferred but stays in the ledger" % x)
         ctx.ob(rule, "%s|reset-iff-transfer" % p, not bad,
                ("MISMATCH " + "; ".join(bad) + " | " if bad else "") + "pending amount regions (transfer/ledger): %s" % rows,
-               v.where(xb))
+               sv.where(xb))
     # every message created here is a transfer to the collector
     for b, i, l, desc in message_creations(v, model):
         if "into_msg" in desc:
